@@ -4,8 +4,9 @@
 (* is generated once); the dump of a run is the list of cases replayed against the real code.    *)
 (* Invariants: the relations are satisfiable (the constructive references satisfy them), the     *)
 (* repaired implementation-shaped model is order-free, and -- as negative controls that must be  *)
-(* violated -- the current implementation shape is order-dependent (P5), loses hits through      *)
-(* chained replacement (P14), shrinks merges (P24) and keeps only the last chain (P26).          *)
+(* violated -- the implementation shape before the repairs is order-dependent (P5), loses hits   *)
+(* through chained replacement (P14), shrinks merges (P24) and keeps only the last merged domain *)
+(* of a profile in default mode.                                                                  *)
 EXTENDS Refine, TLC
 CONSTANTS Family, Uni, Scores, MaxHits, Genes
 VARIABLES hits
@@ -56,14 +57,14 @@ TotalOnly == [NoFix EXCEPT !.total = TRUE]
 RefineSat == Family = "refine" => RefineOK(RefProf, hits, RefRefine(RefProf, hits))
 (* sorting by a total key is enough to make the greedy passes order-free *)
 FixedOrderFree == Family = "refine" =>
-    \A nb \in BOOLEAN : Cardinality({ImplRefine(RefProf, p, nb, TotalOnly) : p \in PermsOf(hits)}) <= 1
+    \A nb \in BOOLEAN : PermInvariant(LAMBDA p : ImplRefine(RefProf, p, nb, TotalOnly), hits)
 (* with the three small repairs only the chained-replacement clauses can still fail *)
 FixedDesignResidual == Family = "refine" =>
     \A nb \in BOOLEAN : RefineClauses(RefProf, hits, ImplRefine(RefProf, ByCode(hits), nb, AllFix))
                             \subseteq {"dropped_hit_justified", "no_overlap_beyond_margin"}
 (* negative controls (each must be violated) *)
 NC_OrderFree == Family = "refine" =>
-    \A nb \in BOOLEAN : Cardinality({ImplRefine(RefProf, p, nb, NoFix) : p \in PermsOf(hits)}) <= 1
+    \A nb \in BOOLEAN : PermInvariant(LAMBDA p : ImplRefine(RefProf, p, nb, NoFix), hits)
 AllComplete == \A h \in hits : Complete(RefProf, h)
 NC_ChainJustified == (Family = "refine" /\ AllComplete) =>
     "dropped_hit_justified" \notin RefineClauses(RefProf, hits, ImplRefine(RefProf, ByCode(hits), TRUE, AllFix))
@@ -90,9 +91,9 @@ CompeteSat == Family = "compete" =>
     LET seq == ByCode(hits)
         f == RefFilter(CompGroups, seq)
         m == RefMultiple(seq)
-    IN  /\ FilterClauses(CompGroups, seq, f, f) = {}
-        /\ MultipleClauses(seq, m, m) = {}
-        /\ MultipleClauses(f, RefMultiple(f), RefMultiple(f)) = {}
+    IN  /\ CompeteOK(CompGroups, seq, f)
+        /\ OneBestPerProfileOK(seq, m)
+        /\ OneBestPerProfileOK(f, RefMultiple(f))
 CompeteRefOrderFree == Family = "compete" =>
     RangeOf(RefFilter(CompGroups, ByCode(hits))) = RangeOf(RefFilter(CompGroups, RevSeq(ByCode(hits))))
 =============================================================================
